@@ -337,4 +337,11 @@ func runC01(c *fw.Ctx) {
 			checkBlockC01(c, s, o, parent, p, au, rp)
 		},
 		func(s *chain.Sim) { o = newSupplyOracle(s) })
+	c01MissedHostProbe(c)
+	// arithmetic helpers of the ledger model against the real functions and the generated definitions
+	if t := fw.Lookup("C01T"); t != nil {
+		rule := c.Res.Rule
+		t(c)
+		c.Res.Rule = rule + " PLUS (C01T): " + c.Res.Rule
+	}
 }
